@@ -73,6 +73,22 @@ def level_of(prop):
 # ---------------------------------------------------------------------------
 
 def _one(wname, prop, master, i, tier, trace=False):
+    """One run.  Worlds with ISOLATE = "fork" execute it in a forked child, so that module-level state a run
+    leaves behind in the code under test can never reach the next run: a run is a function of its plan."""
+    w = world(wname)
+    if getattr(w, "ISOLATE", None) == "fork" and not trace and os.environ.get("VERIF_NO_FORK") != "1":
+        from .isolate import forked
+        from .core import Ctx
+
+        def job():
+            plan, ctx = _one_here(wname, prop, master, i, tier, False)
+            return plan, ctx.result()
+        plan, res = forked(job)
+        return plan, Ctx.rebuild((prop,), res, [])
+    return _one_here(wname, prop, master, i, tier, trace)
+
+
+def _one_here(wname, prop, master, i, tier, trace=False):
     w = world(wname)
     seed = run_seed(master, prop, wname, i)
     rng = rng_for(seed)
@@ -435,7 +451,17 @@ def write_replay(prop, item, mplan, mv, execs):
     os.makedirs(d, exist_ok=True)
     path = os.path.join(d, "%s-%d.json" % (prop, item["seed"]))
     w = world(mplan["world"])
-    ctx = w.execute(mplan, (prop,), trace=True)
+    if getattr(w, "ISOLATE", None) == "fork":
+        from .isolate import forked
+        from .core import Ctx
+
+        def job():
+            c = w.execute(mplan, (prop,), trace=True)
+            return c.result(), c.trace
+        res_, lines_ = forked(job)
+        ctx = Ctx.rebuild((prop,), res_, lines_, trace=True)
+    else:
+        ctx = w.execute(mplan, (prop,), trace=True)
     doc = {
         "property": prop,
         "world": mplan["world"],
